@@ -50,6 +50,9 @@ pub struct Profile {
     /// chance that a history is a long one (400-1500 steps instead of `steps`): state that only accumulates
     /// (reserve snapshots, bad debt, registry churn, funding chains) needs length, not more histories
     pub long_pct: u64,
+    /// chance that a call which needs no funds (PayFunding, Liquidate, WithdrawMargin) on a native-collateral deployment
+    /// carries collateral coins anyway: they may only end up with the engine
+    pub stray_funds_pct: u64,
 }
 
 impl Default for Profile {
@@ -77,6 +80,7 @@ impl Default for Profile {
             subsecond_pct: 50,
             bad_registry_pct: 25,
             long_pct: 2,
+            stray_funds_pct: 0,
         }
     }
 }
@@ -123,6 +127,7 @@ pub fn rand_cfg(rng: &mut Rng, p: &Profile) -> DeployCfg {
             funding_period: *rng.pick(&[3600u64, 86400]),
             decimals: None,
             live: true,
+            unwired: false,
         });
     }
     if rng.chance(p.extra_vamm_pct, 100) && vamms.len() <= 3 {
@@ -415,11 +420,21 @@ impl Gen {
         self.do_step(h, r, op)
     }
 
+    /// coins attached to a call that does not need any (native collateral only)
+    fn stray_funds(&mut self, h: &History, sender: &str) -> u128 {
+        if h.w.cw20.is_some() || !self.rng.chance(self.prof.stray_funds_pct, 100) {
+            return 0;
+        }
+        let bal = h.last.bal(sender);
+        self.rng.log_uniform(1, (100 * h.w.d).max(2)).min(bal)
+    }
+
     pub fn withdraw(&mut self, h: &mut History, r: &mut Report, trader: &str, v: usize, amount: u128) -> Rc<Step> {
+        let funds = self.stray_funds(h, trader);
         let op = Op::Engine {
             sender: trader.to_string(),
             msg: eng::ExecuteMsg::WithdrawMargin { vamm: Self::vaddr(h, v), amount: u(amount) },
-            funds: 0,
+            funds,
         };
         self.do_step(h, r, op)
     }
@@ -466,10 +481,11 @@ impl Gen {
     }
 
     pub fn liquidate(&mut self, h: &mut History, r: &mut Report, caller: &str, v: usize, trader: &str, limit: u128) -> Rc<Step> {
+        let funds = self.stray_funds(h, caller);
         let op = Op::Engine {
             sender: caller.to_string(),
             msg: eng::ExecuteMsg::Liquidate { vamm: Self::vaddr(h, v), trader: trader.to_string(), quote_asset_limit: u(limit) },
-            funds: 0,
+            funds,
         };
         self.do_step(h, r, op)
     }
@@ -499,7 +515,8 @@ impl Gen {
     }
 
     pub fn pay_funding(&mut self, h: &mut History, r: &mut Report, caller: &str, v: usize) -> Rc<Step> {
-        let op = Op::Engine { sender: caller.to_string(), msg: eng::ExecuteMsg::PayFunding { vamm: Self::vaddr(h, v) }, funds: 0 };
+        let funds = self.stray_funds(h, caller);
+        let op = Op::Engine { sender: caller.to_string(), msg: eng::ExecuteMsg::PayFunding { vamm: Self::vaddr(h, v) }, funds };
         self.do_step(h, r, op)
     }
 
